@@ -62,6 +62,7 @@ def cells(tier):
         out.append({'backend': 'dict', 'n': 2, 'rounds': 2,
                     'opts': ['permA', 'permC', 'tempA', 'tempC'],
                     'kinds': ['mapping']})
+        out.append({'kind': 'real', 'backend': 'dict'})
         out.append({'backend': 'dict', 'n': 2, 'rounds': 1,
                     'bounce_queue': 'queue', 'opts': ['ok', 'permA', 'tempA'],
                     'kinds': ['mapping', 'permanent']})
@@ -94,7 +95,66 @@ def setup(mode):
     import slimta.bounce
 
 
+def run_real(cell):
+    """the real SMTP relay client in front of a peer without 8BITMIME: the
+    relay converts the message to 7-bit for the wire, the peer then refuses
+    it; the bounce must still embed the message as it was accepted"""
+    import gevent
+    from email.encoders import encode_base64, encode_quopri
+    from slimta.queue import Queue
+    from slimta.queue.dict import DictStorage
+    from slimta.relay.smtp.static import StaticSmtpRelay
+    from slimta.bounce import Bounce
+    from . import netcommon as nc
+    import slimta.smtp.client as sc
+    sc.wait_read = nc.fake_wait_read
+    qc.fresh_hub()
+    qc.patch_env()
+    nc.reset()
+    stage = ['MAIL', 'RCPT', 'EOD'][api.choice('refused_at', 3)]
+    enc = [encode_base64, encode_quopri][api.choice('encoder', 2)]
+    over = {(stage, None): ('reply', '550', ['5.7.1 not wanted'])}
+
+    def creator(address):
+        p = nc.ScriptedPeer(nc.ok_script((), over))
+        return p.start()
+    relay = StaticSmtpRelay('mx.example', 25, socket_creator=creator,
+                            ehlo_as='me', binary_encoder=enc,
+                            context=object(), connect_timeout=10,
+                            command_timeout=10, data_timeout=20)
+    recq = qhist.RecQueue()
+    made = []
+
+    def factory(envelope, reply):
+        b = Bounce(envelope, reply)
+        made.append(b)
+        return b
+    queue = Queue(DictStorage(), relay, backoff=lambda e, a: None,
+                  bounce_factory=factory, bounce_queue=recq)
+    queue.start()
+    qc.run_until_quiescent()
+    # (concrete body: the 7-bit conversion runs inside the stdlib's email
+    # package, which cannot take symbolic bytes)
+    env = qc.make_envelope('m1', 'sender@z', ['a@x'],
+                           body=b'caf\xc3\xa9 \xe2\x82\xac body\r\n')
+    hdr, body = env.flatten()
+    queue.enqueue(env)
+    qc.run_until_quiescent()
+    queue.kill()
+    info = dict(kind='real', refused_at=stage)
+    if not api.prove(len(recq.got) == 1, 'bounce-groups-differ-from-failure-'
+                     'replies', n=len(recq.got), **info):
+        return
+    bh, bb = recq.got[0].flatten()
+    text = bh + bb
+    api.observe('found', [hdr in text, body in text])
+    api.prove(hdr in text, 'original-headers-not-embedded', **info)
+    api.prove(body in text, 'original-body-not-embedded', **info)
+
+
 def run(cell):
+    if cell.get('kind') == 'real':
+        return run_real(cell)
     h = qhist.run_history(cell)
     rcpts = qhist.RCPTS[:cell['n']]
     info = dict(backend=cell['backend'])
